@@ -37,16 +37,31 @@ def framing_batch(prop):
     return vlib.Batch("wow_world_messages", FEATURES, mods, specs, stubbing=True, jobs=12, harness_timeout=900)
 
 
-def batches(scratch):
-    return [framing_batch(PROP)]
+def batches(scratch, tier="quick", seed=0):
+    """framing contracts + the per-container clause `size_without_header() == bytes written` (C02a) on the container
+    contracts (quick: changed files + a small seeded sample), in ONE cargo-kani invocation (same crate, one compile)."""
+    from props import containers_common as cc
+    fb = framing_batch(PROP)
+    cbs, meta = cc.build(tier, seed, PROP, with_primitives=False, sample=12)
+    cb = cbs[0]
+    mods = dict(cb.modules)
+    mods.update(fb.modules)
+    specs = dict(fb.specs)
+    for k, v in cb.specs.items():
+        if not v.get("canary"):
+            specs[k] = v
+    b = vlib.Batch("wow_world_messages", FEATURES, mods, specs, stubbing=True, jobs=8, harness_timeout=900, pre_inject=cc.pre_inject)
+    b.meta = meta
+    return [b]
 
 
 def check(tier, seed):
     run = vlib.Run(PROP, tier, seed)
     scratch = vlib.make_scratch()
     try:
-        bs = batches(scratch)
+        bs = batches(scratch, tier, seed)
         vlib.run_batches(run, scratch, bs)
+        run.extra["containers"] = {k: v for k, v in bs[0].meta.items() if k != "not_loop_free_examples"}
         from props import c02_lemma
         c02_lemma.run(run, scratch)
         run.trusted += ["Kani 0.68 MIR->goto translation and CBMC 6.11 / CaDiCaL are sound",
@@ -70,4 +85,4 @@ def check(tier, seed):
 
 
 def replay(path):
-    return vlib.replay_kani(PROP, path, batches)
+    return vlib.replay_kani(PROP, path, lambda s: batches(s, "thorough", 0))
